@@ -83,7 +83,7 @@ def parseBundle : List String → Option (Bundle × List String)
   | "B" :: v :: fl :: crc :: dst :: src :: rpt :: ts :: sq :: life :: fo :: tot :: n :: rest => do
     let p : Primary := { version := ← v.toNat?, flags := ← fl.toNat?, crc := ← parseCrc crc,
                          dst := ← parseEidTok dst, src := ← parseEidTok src, rpt := ← parseEidTok rpt,
-                         ts := ← ts.toNat?, seq := ← sq.toNat?, lifetime := ← life.toNat?,
+                         ts := ← ts.toNat?, seq := ← sq.toNat?, lifetime := ← (life.splitOn "+").head!.toNat?,
                          fragOff := ← fo.toNat?, total := ← tot.toNat? }
     let (cs, rest') ← parseCanons (← n.toNat?) rest
     some ({ primary := p, canon := cs }, rest')
